@@ -404,4 +404,248 @@ theorem namedLeaf_table {st0 st : Store} (hext : Ext st0 st) {d : Nat} {sid : No
     exact specBody_tableNull an (fun han => (hnull han).1) h1
 
 end Go
+
+/-! ## the hypothesis on the entries of the type table -/
+
+namespace EncJson
+open Go Spec
+
+/-- **the entry `sid` of the type table accepts the encodings of a declared type with underlying type `u`**; `an`: the
+    type is used through a pointer.
+    * the entry is a full reference-free schema tree (`Go.treeAll Iso.noRefs st d sid`, decidable: every subschema
+      pointer below `sid` is non-nil, the unfolding ends within depth `d` — so it is acyclic; subschemas may be shared,
+      `CloneSchemas` unfolds them — and no schema object has a `$ref` or a `$dynamicRef`): any combination of `properties`,
+      `items`, `prefixItems`, `allOf` / `anyOf` / `oneOf` / `not`, `if` / `then` / `else`, `additionalProperties`,
+      `patternProperties`, `contains`, `dependentSchemas`, `propertyNames`, `unevaluated*` … over assertion keywords;
+    * it accepts the encoding of every value of the type (Spec validity in the store that holds the table; fuel
+      `depth u + 1`, what the schema `forType` builds for `u` itself would need — a defined answer with less fuel is one
+      with this fuel, `C01.spec_stable`; deeper entries: `EntryAcceptsDeep`);
+    * through a pointer: its root has a type keyword (otherwise `null` is not *added* to its types: they become
+      `["null"]`, the known finding D17), and the entry with `null` added to the types of its root — the schema object
+      `tableNull true m` over the same subschemas, pushed onto the store — accepts `null` (an `enum`, a `const`, an
+      `allOf` branch with a type of its own … may still refuse). -/
+def EntryAcceptsTree (st : Store) (sid : NodeId) (u : GoType) (an : Bool) : Prop :=
+  ∃ m d, st.get? sid = some m ∧ treeAll Iso.noRefs st d sid = true ∧
+    (∀ re v, HasType u v → Spec.valid (specEnvNoRefs st re) (depth u + 1) sid (encode u v) = some true) ∧
+    (an = true → (m.type ≠ "" ∨ m.types.isSome = true) ∧
+      ∀ re, Spec.valid (specEnvNoRefs (st.push (tableNull true m)) re) (depth u + 1) st.size .null = some true)
+
+mutual
+  /-- `EntryAcceptsTree` for every declared type of `T` that has an entry in the type table and that `forType` meets (not
+      inside `json:"-"` fields, not below another entry); the flag: a pointer was stripped just above -/
+  def EntriesAcceptTree (opts : IOpts) (st : Store) : Bool → GoType → Prop
+    | _, .basic _ => True
+    | _, .ptr e => EntriesAcceptTree opts st true e
+    | _, .slice e => EntriesAcceptTree opts st false e
+    | _, .array _ e => EntriesAcceptTree opts st false e
+    | _, .map _ e => EntriesAcceptTree opts st false e
+    | _, .struct fields => EntriesAcceptTreeFields opts st fields
+    | an, .named n u =>
+      (match Json.lookup n opts.schemas with
+       | some sid => EntryAcceptsTree st sid u an
+       | none => EntriesAcceptTree opts st false u)
+    | _, .ref _ => True
+  def EntriesAcceptTreeFields (opts : IOpts) (st : Store) : List (String × String × GoType) → Prop
+    | [] => True
+    | f :: rest =>
+      ((fieldJSONInfo f.1 f.2.1).omitted = true ∨ EntriesAcceptTree opts st false f.2.2) ∧
+        EntriesAcceptTreeFields opts st rest
+end
+
+end EncJson
+
+namespace Go
+open EncJson Spec
+
+theorem stripPtrs_entriesAcceptTree (opts : IOpts) (st : Store) : ∀ (T : GoType) (b : Bool),
+    EntriesAcceptTree opts st b T → EntriesAcceptTree opts st (b || (stripPtrs T).2) (stripPtrs T).1
+  | .ptr e, b, h => by
+    simp only [EntriesAcceptTree] at h
+    simp only [stripPtrs, Bool.or_true]
+    have := stripPtrs_entriesAcceptTree opts st e true h
+    simpa using this
+  | .basic _, b, h => by simpa [stripPtrs] using h
+  | .named _ _, b, h => by simpa [stripPtrs] using h
+  | .ref _, b, h => by simpa [stripPtrs] using h
+  | .slice _, b, h => by simpa [stripPtrs, EntriesAcceptTree] using h
+  | .array _ _, b, h => by simpa [stripPtrs, EntriesAcceptTree] using h
+  | .map _ _, b, h => by simpa [stripPtrs, EntriesAcceptTree] using h
+  | .struct _, b, h => by simpa [stripPtrs, EntriesAcceptTree] using h
+
+theorem entriesAcceptTreeFields_mem {opts : IOpts} {st : Store} : ∀ {fields : List (String × String × GoType)},
+    EntriesAcceptTreeFields opts st fields → ∀ f, f ∈ fields → (fieldJSONInfo f.1 f.2.1).omitted = false →
+    EntriesAcceptTree opts st false f.2.2
+  | [], _, _, hf, _ => nomatch hf
+  | g :: rest, h, f, hf, ho => by
+    simp only [EntriesAcceptTreeFields] at h
+    rcases List.mem_cons.1 hf with rfl | hf
+    · rcases h.1 with h1 | h1
+      · rw [ho] at h1; cases h1
+      · exact h1
+    · exact entriesAcceptTreeFields_mem h.2 f hf ho
+
+/-! ## `forType` builds a schema that `Models` describes, tree entries of the type table included -/
+
+/-- what is assumed of the recursive call, on the stores that extend the one holding the type table -/
+def RecOkTT (opts : IOpts) (st0 : Store) (rec : IRec) : Prop :=
+  ∀ T seen st r st', Ext st0 st → InDomainN T = true → EntriesAcceptTree opts st0 false T →
+    rec T seen st = .ok (r, st') → ∃ id, r = some id ∧ Models opts.nullForSlices st' T false id
+
+/-- one step on a type that is, under its pointers, not a declared type (as `inferStep_modelsT_shape`) -/
+theorem inferStep_modelsTT_shape {opts : IOpts} {st0 : Store} {rec : IRec} (hinv : IRecInv rec)
+    (hrec : RecOkTT opts st0 rec) {T t : GoType} {an : Bool} {seen : List String} {st : Store} {r : Option NodeId}
+    {st' : Store} (hs : stripPtrs T = (t, an)) (hsh : namedShape t = true) (hdomT : InDomainN t = true)
+    (hacc : EntriesAcceptTree opts st0 false t) (hext : Ext st0 st) (h : inferStep opts rec T seen st = .ok (r, st')) :
+    ∃ id, r = some id ∧ Models opts.nullForSlices st' t an id := by
+  cases t with
+  | ptr e => simp [namedShape] at hsh
+  | named nm u => simp [namedShape] at hsh
+  | ref nm => simp [namedShape] at hsh
+  | basic kind =>
+    simp only [InDomainN] at hdomT
+    obtain ⟨ty, mn, mx, hk⟩ := kindEntry_domain hdomT
+    rw [inferStep_basic hs, hk] at h
+    cases h
+    refine ⟨_, rfl, ?_⟩
+    simp only [Models]
+    exact ⟨ty, mn, mx, hk, HasNode.of_get (get?_push_size _ _)⟩
+  | slice e =>
+    simp only [InDomainN] at hdomT
+    simp only [EntriesAcceptTree] at hacc
+    rw [inferStep_slice hs] at h
+    obtain ⟨⟨es, st1⟩, he, h⟩ := Res.bind_eq_ok h
+    obtain ⟨eid, rfl, hm⟩ := hrec _ _ _ _ _ hext hdomT hacc he
+    cases h
+    refine ⟨_, rfl, ?_⟩
+    simp only [Models]
+    exact ⟨eid, Models.mono (Ext.push _ _).toDExt _ _ _ hm, HasNode.of_get (get?_push_size _ _)⟩
+  | array len e =>
+    simp only [InDomainN] at hdomT
+    simp only [EntriesAcceptTree] at hacc
+    rw [inferStep_array hs] at h
+    obtain ⟨⟨es, st1⟩, he, h⟩ := Res.bind_eq_ok h
+    obtain ⟨eid, rfl, hm⟩ := hrec _ _ _ _ _ hext hdomT hacc he
+    cases h
+    refine ⟨_, rfl, ?_⟩
+    simp only [Models]
+    exact ⟨eid, Models.mono (Ext.push _ _).toDExt _ _ _ hm, HasNode.of_get (get?_push_size _ _)⟩
+  | map keyKind e =>
+    simp only [InDomainN, Bool.and_eq_true, beq_iff_eq] at hdomT
+    simp only [EntriesAcceptTree] at hacc
+    rw [inferStep_map hs] at h
+    simp only [hdomT.1, bne_self_eq_false, Bool.false_eq_true, if_false] at h
+    obtain ⟨⟨es, st1⟩, he, h⟩ := Res.bind_eq_ok h
+    obtain ⟨eid, rfl, hm⟩ := hrec _ _ _ _ _ hext hdomT.2 hacc he
+    cases h
+    refine ⟨_, rfl, ?_⟩
+    simp only [Models]
+    exact ⟨eid, Models.mono (Ext.push _ _).toDExt _ _ _ hm, HasNode.of_get (get?_push_size _ _)⟩
+  | struct fields =>
+    simp only [InDomainN, Bool.and_eq_true] at hdomT
+    simp only [EntriesAcceptTree] at hacc
+    obtain ⟨⟨hnd, _⟩, hdf⟩ := hdomT
+    obtain ⟨n, st1, hl, rfl, rfl⟩ := inferStep_struct_ok hs h
+    refine ⟨_, rfl, ?_⟩
+    have hrm : RecModels (Ext st0) opts.nullForSlices rec seen fields :=
+      fun f hf ho s r s1 hs1 hr =>
+        hrec _ _ _ _ _ hs1 (inDomainFieldsN_mem hdf f hf ho) (entriesAcceptTreeFields_mem hacc f hf ho) hr
+    have hext2 : Ext st0 ((st.push emptyNode).push (falseNode st.size)) :=
+      hext.trans ((Ext.push _ _).trans (Ext.push _ _))
+    have hP : ∀ s s', Ext st0 s → Ext s s' → Ext st0 s' := fun _ _ h1 h2 => h1.trans h2
+    obtain ⟨hmf, _⟩ := structLoop_models (P := Ext st0) hP hinv fields hext2 hrm hl hnd (fun _ _ => rfl)
+    have hndrop : NeverDropsOn (Ext st0) rec seen fields := fun f hf ho s s1 hs1 hr => by
+      obtain ⟨fid, hfid, _⟩ := hrm f hf ho s _ s1 hs1 hr
+      cases hfid
+    obtain ⟨_, hrq, hkeys⟩ := structLoop_listsOn (P := Ext st0) hP hinv fields hext2 hndrop hl
+    have hcore := node_of_core (structLoop_core fields hl)
+    have hext' : Ext ((st.push emptyNode).push (falseNode st.size)) (st1.push (addNull an (finalOrder n))) :=
+      (structLoop_inv hinv seen _ _ _ _ _ hl).1.trans (Ext.push _ _)
+    have hnot : HasNode (st1.push (addNull an (finalOrder n))) st.size emptyNode := by
+      refine HasNode.of_get (hext'.get? ?_)
+      rw [get?_push_lt _ (by rw [Array.size_push]; exact Nat.lt_succ_self _)]
+      exact get?_push_size _ _
+    have hfalse : HasNode (st1.push (addNull an (finalOrder n))) (st.size + 1) (falseNode st.size) := by
+      refine HasNode.of_get (hext'.get? ?_)
+      have := get?_push_size (st.push emptyNode) (falseNode st.size)
+      rwa [Array.size_push] at this
+    simp only [Models]
+    refine ⟨st.size, st.size + 1, n.properties, (finalOrder n).propertyOrder, n.required, hnot, hfalse, ?_, ?_, ?_,
+      ModelsFields.mono (Ext.push _ _).toDExt _ _ hmf⟩
+    · refine HasNode.of_get ?_
+      rw [get?_push_size]
+      congr 2
+      have : finalOrder n = { n with propertyOrder := (finalOrder n).propertyOrder } := by
+        unfold finalOrder
+        split
+        · split <;> rfl
+        · rfl
+      rw [this, hcore]
+      rfl
+    · rw [hrq]; rfl
+    · intro k hk
+      have := (hkeys k).1 hk
+      simpa [structNode0] using this
+
+theorem inferStep_modelsTT (opts : IOpts) (hnfs : opts.nullForSlices = true) (st0 : Store) {rec : IRec}
+    (hinv : IRecInv rec) (hrec : RecOkTT opts st0 rec) : RecOkTT opts st0 (inferStep opts rec) := by
+  intro T seen st r st' hext hdomT haccT h
+  rw [← stripPtrs_inDomainN] at hdomT
+  have hacc := stripPtrs_entriesAcceptTree opts st0 T false haccT
+  simp only [stripPtrs_models opts.nullForSlices st' T]
+  have hnp := stripPtrs_not_ptr T
+  generalize hs : stripPtrs T = p at hdomT hacc hnp
+  obtain ⟨t, an⟩ := p
+  simp only [Bool.false_or] at hdomT hacc hnp ⊢
+  cases t with
+  | ptr e => exact absurd rfl (hnp e)
+  | ref nm => simp [InDomainN] at hdomT
+  | basic kind => exact inferStep_modelsTT_shape hinv hrec hs rfl hdomT (by simp only [EntriesAcceptTree]) hext h
+  | slice e => exact inferStep_modelsTT_shape hinv hrec hs rfl hdomT (by simpa only [EntriesAcceptTree] using hacc) hext h
+  | array len e =>
+    exact inferStep_modelsTT_shape hinv hrec hs rfl hdomT (by simpa only [EntriesAcceptTree] using hacc) hext h
+  | map kk e => exact inferStep_modelsTT_shape hinv hrec hs rfl hdomT (by simpa only [EntriesAcceptTree] using hacc) hext h
+  | struct fs => exact inferStep_modelsTT_shape hinv hrec hs rfl hdomT (by simpa only [EntriesAcceptTree] using hacc) hext h
+  | named nm u =>
+    simp only [InDomainN] at hdomT
+    simp only [EntriesAcceptTree] at hacc
+    cases hl : Json.lookup nm opts.schemas with
+    | some sid =>
+      -- an entry of the type table: a clone of the tree, `null` added at its root for a pointer
+      rw [hl] at hacc
+      obtain ⟨m, d, hm, htree, hv, hnull⟩ := hacc
+      cases hc : seen.contains nm with
+      | true =>
+        rw [inferStep_seen (t := .named nm u) hs rfl hc] at h
+        cases h
+      | false =>
+        rw [inferStep_table (t := .named nm u) hs rfl hc hl] at h
+        obtain ⟨⟨c, st1⟩, hcl, h⟩ := Res.bind_eq_ok h
+        simp only at h
+        cases hcn : st1.get? c with
+        | none => rw [hcn] at h; cases h
+        | some cn =>
+          rw [hcn, hnfs, Bool.true_and] at h
+          cases h
+          refine ⟨_, rfl, ?_⟩
+          simp only [Models]
+          exact namedLeaf_table hext htree hm hcl hcn u an (depth u + 1) (Nat.le_refl _) hv hnull
+    | none =>
+      -- a declared type that `forType` expands
+      rw [hl] at hacc
+      obtain ⟨hseen, hsh⟩ := inferStep_named_ok hs hl h
+      rw [inferStep_named_transparent hs hseen hl hsh] at h
+      have hup : ∀ e, u ≠ .ptr e := by cases u <;> simp_all [namedShape]
+      obtain ⟨id, hid, hm⟩ := inferStep_modelsTT_shape hinv hrec (stripPtrs_wrapPtr hup an) hsh hdomT hacc hext h
+      refine ⟨id, hid, ?_⟩
+      simp only [Models]
+      intro st'' hd re f scope hf
+      rw [hnfs] at hm
+      exact Models.sound (re := re) u an id (Models.mono hd u an id hm) f scope (by omega)
+
+theorem inferFuel_modelsTT (opts : IOpts) (hnfs : opts.nullForSlices = true) (st0 : Store) :
+    ∀ fuel, RecOkTT opts st0 (inferFuel opts fuel)
+  | 0 => fun _ _ _ _ _ _ _ _ h => by cases h
+  | fuel + 1 => inferStep_modelsTT opts hnfs st0 (inferFuel_inv opts fuel) (inferFuel_modelsTT opts hnfs st0 fuel)
+
+end Go
 end JSV
